@@ -8,25 +8,25 @@ var Profiles = map[string]Profile{
 	// spec lab, routing shape: C01
 	"routes": {Name: "routes", MaxControllers: 4, MaxMethods: 8, MultiPkg: true, MultiFile: true, Hidden: true, Deprecated: true,
 		NonEndpoint: true, ParamIn: []string{"path", "query"}, ParamTypeLevel: 0, Models: 0, RouteStyle: "slashy", CtlRouteParams: true,
-		VerbPathReuse: true, Descriptions: true, BareControllers: true, TemplateTwins: true},
+		VerbPathReuse: true, Descriptions: true, BareControllers: true, TemplateTwins: true, GroupedControllers: true, ControllerFields: true, NestedBetween: true, CrossCtlSameRoute: true},
 	// spec lab, signatures: C06
 	"signatures": {Name: "signatures", MaxControllers: 3, MaxMethods: 6, MultiPkg: true, MultiFile: true, Hidden: true, Deprecated: true,
 		ParamIn: allIn, ParamTypeLevel: 2, Validators: true, Models: 1, CustomErrors: true, Responses: true, RouteStyle: "clean",
-		Descriptions: true, WireNames: true, CtxParams: true, AnyBytesTime: true, NestedSlices: true, GroupedParams: true, RepeatedErrCodes: true},
+		Descriptions: true, WireNames: true, CtxParams: true, AnyBytesTime: true, NestedSlices: true, GroupedParams: true, RepeatedErrCodes: true, LookalikeTypes: true},
 	// spec lab, models: C07
 	"models": {Name: "models", MaxControllers: 2, MaxMethods: 5, MultiPkg: true, MultiFile: false, ParamIn: []string{"path", "query", "body"},
 		ParamTypeLevel: 2, Models: 2, FieldValidators: true, CustomErrors: true, RouteStyle: "clean", Maps: true, HiddenJSON: true,
-		Descriptions: true, AnyBytesTime: true, NestedSlices: true, UsageValidators: true, SameNameTypes: true},
+		Descriptions: true, AnyBytesTime: true, NestedSlices: true, UsageValidators: true, SameNameTypes: true, ErrorEmbeds: true},
 	// spec lab, security: C04
 	"security": {Name: "security", MaxControllers: 3, MaxMethods: 5, MultiPkg: true, MultiFile: true, Hidden: true, Security: true,
-		DefaultSecP: 0.5, EnforceP: 0.4, ParamIn: []string{"path", "query"}, ParamTypeLevel: 0, Models: 0, RouteStyle: "clean", OAuthSchemes: true},
+		DefaultSecP: 0.5, EnforceP: 0.4, ParamIn: []string{"path", "query"}, ParamTypeLevel: 0, Models: 0, RouteStyle: "clean", OAuthSchemes: true, GroupedControllers: true, ControllerFields: true},
 	// router labs (compile-safe per the acceptance survey, DESIGN Appendix L): C02 C03 C05 C12
 	"router": {Name: "router", MaxControllers: 3, MaxMethods: 5, MultiPkg: true, MultiFile: true, Hidden: true, ParamIn: allIn, ParamTypeLevel: 2,
 		Validators: true, RuntimeValidators: true, Models: 1, CustomErrors: true, Responses: false, RouteStyle: "clean", CtlRouteParams: true, VerbPathReuse: true,
-		WireNames: true, CtxParams: true, Security: false, DashedWireNames: true, GroupedParams: true},
+		WireNames: true, CtxParams: true, Security: false, DashedWireNames: true, GroupedParams: true, GroupedControllers: true, ControllerFields: true, NestedBetween: true, SameNameTypes: true, CrossCtlSameRoute: true},
 	// everything the spec emitters understand: C08, C11
 	"fullspec": {Name: "fullspec", MaxControllers: 3, MaxMethods: 6, MultiPkg: true, MultiFile: true, Hidden: true, Deprecated: true,
 		Security: true, DefaultSecP: 0.4, ParamIn: allIn, ParamTypeLevel: 2, Validators: true, FieldValidators: true, Models: 2,
 		CustomErrors: true, Responses: true, RouteStyle: "clean", CtlRouteParams: true, VerbPathReuse: true, Maps: true,
-		Descriptions: true, WireNames: true, CtxParams: true, AnyBytesTime: true, NestedSlices: true, TemplateTwins: true, OAuthSchemes: true, ErrCodeIsSuccess: true, RepeatedErrCodes: true, GroupedParams: true},
+		Descriptions: true, WireNames: true, CtxParams: true, AnyBytesTime: true, NestedSlices: true, TemplateTwins: true, OAuthSchemes: true, ErrCodeIsSuccess: true, RepeatedErrCodes: true, GroupedParams: true, ErrorEmbeds: true},
 }
